@@ -11,3 +11,16 @@ func init() {
 		gfSpec{Pkg: "./pkg/crypto/keys", Recv: "PublicKey", Func: "sizeSerialized", Lean: "c15KeySizeSerialized"},
 	)
 }
+
+// third round (translator v2: bit operations, several results, field writes, Sink)
+func init() {
+	gfSpecs = append(gfSpecs,
+		gfSpec{Pkg: "./pkg/core/interop/runtime", Func: "getContractGroups", Lean: "c15GetContractGroups"},
+		gfSpec{Pkg: "./pkg/core/transaction", Func: "ScopesFromByte", Lean: "c15ScopesFromByte"},
+		gfSpec{Pkg: "./pkg/smartcontract/callflag", Recv: "CallFlag", Func: "Has", Lean: "c15CallFlagHas"},
+		gfSpec{Pkg: "./pkg/core/interop/runtime", Func: "LoadScript", Lean: "c15RuntimeLoadScript", Sink: "ic.VM.LoadDynamicScript"},
+		gfSpec{Pkg: "./pkg/core/interop/contract", Func: "callInternal", Lean: "c15CallInternal", Sink: "callExFromNative"},
+		gfSpec{Pkg: "./pkg/core/transaction", Recv: "WitnessRule", Func: "DecodeBinary", Lean: "c15RuleDecodeBinary"},
+		gfSpec{Pkg: "./pkg/core/transaction", Recv: "Signer", Func: "DecodeBinary", Lean: "c15SignerDecodeBinary"},
+	)
+}
